@@ -20,7 +20,7 @@ import sigtree as st
 from common import run_driver
 
 TRUSTED = [
-    'Lean 4.33.0 kernel; axioms of every theorem in Props/C03.lean within {propext, Classical.choice, Quot.sound}',
+    'Lean 4.33.0 kernel; axioms of every theorem in Props/C03*.lean within {propext, Classical.choice, Quot.sound}',
     'harness/relaxmodel.py (generators, extraction of the built Problem\'s data), harness/props/c03.py',
     'ECOS in the audit stream only (statuses other than solved are inconclusive; tolerance 1e-5 relative)',
 ]
